@@ -151,10 +151,14 @@ class FinalRoundCompensation(Contract):
     prop = "C03"
     file = PA
     func = "Parameters.compute_parameters_third_round"
-    name = "final round charge is raised by no more than half of its own extra meat"
     np_floats = True
     merge = True
     replayable = False
+
+    def __init__(self, add_meat=True):
+        self.add_meat = add_meat
+        self.name = ("final round charge is raised by no more than half of its own extra meat" if add_meat else
+                     "final round charge is not raised at all when culled meat is not eaten")
 
     def inputs(self, S):
         pop = S.real("population")
@@ -175,7 +179,7 @@ class FinalRoundCompensation(Contract):
                     stored_food_kcals_equivalent=food("stored1", KC))
         ir2 = S.obj(IR, "Interpreter", biofuels_sum_kcals_equivalent=food("biofuel2", KC), feed_sum_kcals_equivalent=food("feed2", KC))
         fb = S.obj(FB, "FeedAndBiofuels")
-        ci = S.opendict("constants_inputs", {"COUNTRY_CODE": "XXX", "BREEDING_STRATEGY": "reduce_breeding"}, closed=True)
+        ci = S.opendict("constants_inputs", {"COUNTRY_CODE": "XXX", "BREEDING_STRATEGY": "reduce_breeding", "ADD_MEAT": self.add_meat}, closed=True)
         captured = {}
         meat3 = food("meat3")
         feed_used3 = food("feed_used3")
@@ -209,6 +213,13 @@ class FinalRoundCompensation(Contract):
     def ensures(self, S, a, res):
         i = S.idx("i", a["n"])
         ser, conv, cap = a["ser"], a["conv"], a["captured"]
+        if not self.add_meat:
+            # nothing to offset: people do not eat the extra meat (cull = dont_eat_culled), so the charge must stay what
+            # the final round's herds used (natively: BLR / MDA / THA, present-day climate, continued feed - the
+            # no-feed round reaches 171 / 290 / 163 % and the final result fell to 94 / 87 / 96 % before the fix)
+            tc3 = unwrap(res)[1]
+            unchanged = V(tc3["feed"]).kcals[i] == ser["feed_used3"][i]
+            return {"no_compensation_without_meat_consumption": And(V("increase" not in cap), unchanged)}
         if "increase" not in cap:
             return {"compensation_is_half_the_final_rounds_own_extra_meat_less_20_kcal": V(False)}
         # billion kcals per month <-> kcals per person per day:  x * kcals_daily * 1e9 / (kcals_monthly * population)
@@ -289,7 +300,7 @@ def lp_ceilings(repo, tier, seed):
 
 
 CONTRACTS = [UsedBelowDemand("feed"), UsedBelowDemand("biofuel"), UsedAboveDemandIsRejected("feed"), UsedAboveDemandIsRejected("biofuel"),
-             FinalRoundChargesWithinDemand(), FinalRoundCompensation()] + _c08_schedules()
+             FinalRoundChargesWithinDemand(), FinalRoundCompensation(True), FinalRoundCompensation(False)] + _c08_schedules()
 def _c18_min_needs():
     from contracts import C18
     from contracts.common import relabelled
@@ -299,7 +310,19 @@ def _c18_min_needs():
 # mechanism of sentence 1 (not the sentence): before anything may go to feed / biofuel in the feed round, humans are
 # reserved min(no-feed result, minimum share) of their need, filled in the documented priority order - C18's contract
 CONTRACTS += _c18_min_needs()
-EXTRA = [checks_after_every_round, lp_ceilings]
+def pinned_human_consumption(repo, tier, seed):
+    """Mechanism of sentence 1: in the feed round what people were reserved is PINNED (within 1e-5, 1e-4 below ten
+    million people) - C02's lemma group, re-run under this property (a looser band hands human food to the animals)."""
+    from contracts import C02
+    out = []
+    for o in C02.pinned_consumption(repo, tier, seed):
+        o = dict(o)
+        o["name"] = o["name"].replace("C02/", "C03/lp/")
+        out.append(o)
+    return out
+
+
+EXTRA = [checks_after_every_round, lp_ceilings, pinned_human_consumption]
 TRUSTED = [
     "machine floats treated as mathematical reals; the run-time checks' own tolerances (1e-4 relative, 1e-6 absolute) are part of what is proved",
     "nutrition settings literal in the validator contracts (2100 / 47 / 51), population symbolic; fat / protein not counted (the shipped profiles): with them counted the validators return at once and nothing is enforced",
